@@ -1,0 +1,80 @@
+//go:build verif
+
+package waddrmgr
+
+import "fmt"
+
+// VerifSecret describes one in-memory buffer that can hold clear-text private
+// material. Present is true when the buffer is non-nil and not all zero.
+type VerifSecret struct {
+	Class   string // master, cryptoPriv, cryptoScript, passHash, acctKey, addrKey, lastAddrKey, pendingAddrKey, script, keyCache
+	ID      string
+	Present bool
+}
+
+func verifNonZero(b []byte) bool {
+	for _, x := range b {
+		if x != 0 {
+			return true
+		}
+	}
+	return false
+}
+
+func verifAddrSecrets(class, id string, ma ManagedAddress, out *[]VerifSecret) {
+	switch a := ma.(type) {
+	case *managedAddress:
+		a.privKeyMutex.Lock()
+		*out = append(*out, VerifSecret{class, id, verifNonZero(a.privKeyCT)})
+		a.privKeyMutex.Unlock()
+	case *scriptAddress:
+		a.scriptMutex.Lock()
+		*out = append(*out, VerifSecret{"script", id, verifNonZero(a.scriptClearText)})
+		a.scriptMutex.Unlock()
+	}
+}
+
+// VerifSecretState reports, for every buffer reachable from the manager that
+// can hold clear-text private material, whether it currently does. It only
+// exists in builds with the verif tag; wiping has no API-visible effect.
+func (m *Manager) VerifSecretState() []VerifSecret {
+	m.mtx.RLock()
+	defer m.mtx.RUnlock()
+
+	var out []VerifSecret
+	if m.masterKeyPriv != nil && m.masterKeyPriv.Key != nil {
+		out = append(out, VerifSecret{"master", "masterKeyPriv", verifNonZero(m.masterKeyPriv.Key[:])})
+	}
+	if ck, ok := m.cryptoKeyPriv.(*cryptoKey); ok && ck != nil {
+		out = append(out, VerifSecret{"cryptoPriv", "cryptoKeyPriv", verifNonZero(ck.CryptoKey[:])})
+	}
+	if ck, ok := m.cryptoKeyScript.(*cryptoKey); ok && ck != nil {
+		out = append(out, VerifSecret{"cryptoScript", "cryptoKeyScript", verifNonZero(ck.CryptoKey[:])})
+	}
+	out = append(out, VerifSecret{"passHash", "hashedPrivPassphrase", verifNonZero(m.hashedPrivPassphrase[:])})
+
+	for scope, s := range m.scopedManagers {
+		s.mtx.RLock()
+		for num, ai := range s.acctInfo {
+			id := fmt.Sprintf("%v/%d", scope, num)
+			out = append(out, VerifSecret{"acctKey", id, ai.acctKeyPriv != nil})
+			if ai.lastExternalAddr != nil {
+				verifAddrSecrets("lastAddrKey", id+"/ext", ai.lastExternalAddr, &out)
+			}
+			if ai.lastInternalAddr != nil {
+				verifAddrSecrets("lastAddrKey", id+"/int", ai.lastInternalAddr, &out)
+			}
+		}
+		for _, ma := range s.addrs {
+			verifAddrSecrets("addrKey", ma.Address().String(), ma, &out)
+		}
+		for _, info := range s.deriveOnUnlock {
+			if info != nil && info.managedAddr != nil {
+				verifAddrSecrets("pendingAddrKey", info.managedAddr.Address().String(), info.managedAddr, &out)
+			}
+		}
+		out = append(out, VerifSecret{"keyCache", fmt.Sprintf("%v", scope), s.privKeyCache.Len() > 0})
+		s.mtx.RUnlock()
+	}
+	return out
+}
